@@ -169,6 +169,9 @@ def write_json(path, obj):
     os.replace(tmp, path)
 
 
+LAST_RUN = {}
+
+
 def verdict(prop, tier, seed, level, coverage, violations, assumptions, t0, replay_writer=None):
     """violations: list of dicts with at least prop/rule/at (+ whatever identifies the case).
     Splits them into known findings and fresh violations, writes evidence, prints lines, exits."""
@@ -202,7 +205,7 @@ def verdict(prop, tier, seed, level, coverage, violations, assumptions, t0, repl
     replay_paths = []
     for s, vs in sorted(fresh.items()):
         path = os.path.join(REPLAYS, prop, re.sub(r"[^A-Za-z0-9_.-]+", "_", s) + ".json")
-        payload = {"property": prop, "signature": s, "occurrences": len(vs), "first": vs[0]}
+        payload = {"property": prop, "signature": s, "tier": tier, "seed": seed, "occurrences": len(vs), "first": vs[0]}
         if replay_writer:
             payload.update(replay_writer(vs[0]))
         write_json(path, payload)
@@ -210,12 +213,15 @@ def verdict(prop, tier, seed, level, coverage, violations, assumptions, t0, repl
         print(f"VIOLATION property={prop} replay={path}")
         rc = 1
     coverage = dict(coverage)
+    LAST_RUN["signatures"] = sorted(set(hits.keys()) | set(fresh.keys()))
     coverage["known_findings_hit"] = {s: len(vs) for s, vs in hits.items()}
     coverage["fresh_violation_signatures"] = sorted(fresh.keys())
     ev = {"property_id": prop, "tier": tier, "seed": seed, "level": level, "coverage": coverage,
           "assumptions": assumptions, "wall_s": round(time.time() - t0, 2),
           "violations": sum(len(v) for v in fresh.values())}
-    write_json(os.path.join(EVID, prop + ".json"), ev)
+    evdir = os.environ.get("VERIF_EVIDENCE_DIR", EVID)       # (a replay must not overwrite the check's evidence)
+    os.makedirs(evdir, exist_ok=True)
+    write_json(os.path.join(evdir, prop + ".json"), ev)
     return rc
 
 
